@@ -67,6 +67,18 @@ template <class A> static Verdict check_type(const u32s &cps, const Matcher::Res
       VF_REQUIRE(mm.outstanding() == 0, "%s/%s: %zu blocks outstanding after release", A::name(), en, mm.outstanding());
     }
   }
+  // with the k-th allocation failing the answer is the out-of-memory code or the fault-free answer, never the opposite verdict
+  for (int k = 1; k <= 16; k++) {
+    Parsed<A> p;
+    mm.reset_counts(); mm.reset_plan(); mm.fail_at = (uint64_t)k;
+    parse_via<A>(p, PE_SINGLE_MM, s, &mm);
+    bool bit = mm.failed > 0;
+    mm.reset_plan();
+    stats().sub_evaluations++;
+    if (!bit) break;
+    if (res.accepted) VF_REQUIRE(p.rc == 0 || p.rc == URI_ERROR_MALLOC, "%s: allocation %d fails on a grammar-valid text: rc=%d (neither success nor the out-of-memory code)", A::name(), k, p.rc);
+    else VF_REQUIRE(p.rc == URI_ERROR_SYNTAX || p.rc == URI_ERROR_MALLOC, "%s: allocation %d fails on an invalid text: rc=%d", A::name(), k, p.rc);
+  }
   return Verdict::pass();
 }
 
